@@ -1,5 +1,5 @@
 (* Agent registry facts (C16), over tables regenerated from internal/llmsetup/*.go, llmsetup.go's kong tags and README.md. *)
-From Coq Require Import String List Bool Arith.
+From Coq Require Import String List Bool Arith Lia.
 Import ListNotations.
 Require Import Agents_gen.
 Open Scope string_scope.
@@ -54,3 +54,63 @@ Definition dir_mismatches (cs : list (nat * (string * string * bool * string * s
                      match find_agent n with
                      | Some a => if String.eqb (install_dir a custom user home cwd) observed then [] else [fst c]
                      | None => [fst c] end) cs.
+
+(* ------------------------------------------------------------------ the directory a path names to the operating system
+   Path resolution over the symbolic links of the tree: components left to right, a link replaced by its target,
+   ".." applied to the directory reached so far (i.e. AFTER links are followed - filepath.Clean would apply it textually).
+   The model names the documented directory (install_dir, plain concatenation); the CLI reports the physical path since
+   1f881e5: the correspondence compares the two after resolving both. *)
+From Coq Require Import Ascii.
+Fixpoint split_slash_aux (s : string) (acc : string) : list string :=
+  match s with
+  | EmptyString => [acc]
+  | String c r => if Ascii.eqb c "/"%char then acc :: split_slash_aux r "" else split_slash_aux r (acc ++ String c "")
+  end.
+Definition components (p : string) : list string :=
+  filter (fun c => negb (String.eqb c "") && negb (String.eqb c ".")) (split_slash_aux p "").
+(* a directory is kept as the list of its components, innermost first *)
+Definition render (cur : list string) : string := fold_left (fun acc c => acc ++ "/" ++ c) (rev cur) "".
+Fixpoint lookup (k : string) (l : list (string * string)) : option string :=
+  match l with [] => None | (k', v) :: r => if String.eqb k k' then Some v else lookup k r end.
+Fixpoint resolve (fuel : nat) (links : list (string * string)) (cur : list string) (todo : list string) : option (list string) :=
+  match fuel with
+  | 0 => None
+  | S fuel =>
+      match todo with
+      | [] => Some cur
+      | c :: r =>
+          if String.eqb c ".." then resolve fuel links (tl cur) r
+          else match lookup (render (c :: cur)) links with
+               | Some t => if is_abs t then resolve fuel links [] (components t ++ r) else resolve fuel links cur (components t ++ r)
+               | None => resolve fuel links (c :: cur) r
+               end
+      end
+  end.
+Definition physical (links : list (string * string)) (p : string) : option string :=
+  option_map render (resolve (200 + 40 * length links) links [] (components p)).
+
+(* without links and without "..", a path names itself (up to empty and "." components) *)
+Lemma resolve_plain : forall todo fuel cur, length todo < fuel -> (forall c, In c todo -> c <> "..") ->
+  resolve fuel [] cur todo = Some ((rev todo ++ cur)%list).
+Proof.
+  induction todo as [|c r IH]; intros fuel cur Hf Hn; destruct fuel as [|fuel]; simpl in *; try (exfalso; lia); auto.
+  destruct (String.eqb_spec c "..") as [E|_]; [exfalso; apply (Hn c); auto|].
+  rewrite IH; [|lia|intros d Hd; apply Hn; auto]. rewrite <- app_assoc. reflexivity.
+Qed.
+(* ".." leaves the directory reached so far, whatever name led there *)
+Lemma resolve_dotdot : forall fuel links cur r, resolve (S fuel) links cur (".." :: r) = resolve fuel links (tl cur) r.
+Proof. reflexivity. Qed.
+
+(* the correspondence's comparison: the documented directory and the reported one name the same directory *)
+Definition dir_mismatches_phys (cs : list (nat * (string * string * bool * string * string * string * list (string * string)))) : list nat :=
+  flat_map (fun c => let '(n, custom, user, home, cwd, observed, links) := snd c in
+                     match find_agent n with
+                     | Some a => match physical links (install_dir a custom user home cwd), physical links observed with
+                                 | Some x, Some y => if String.eqb x y then [] else [fst c]
+                                 | _, _ => [fst c] end
+                     | None => [fst c] end) cs.
+
+Example physical_example :
+  physical [("/w/proj/lnk", "/w/else/deep/dir"); ("/w/else/abs", "../real")] "/w/proj/lnk/../viaparent/./kessoku-di" = Some "/w/else/deep/viaparent/kessoku-di" /\
+  physical [("/w/proj/lnk", "/w/else/deep/dir"); ("/w/else/abs", "../real")] "/w/else/abs/x" = Some "/w/real/x".
+Proof. vm_compute. split; reflexivity. Qed.
